@@ -174,3 +174,92 @@ theorem truncateDatabaseFile_ok (s : Eng) (n : Nat) (hps : s.pageSize ≠ 0) :
   exact ⟨_, rfl⟩
 
 end LiteFSVerif.Recovery
+
+namespace LiteFSVerif.Recovery
+open LiteFSVerif LiteFSVerif.Engine LiteFSVerif.Sqlite LiteFSVerif.BA LiteFSVerif.Cks
+
+/-- an engine result that is not a panic -/
+def NoPanic {α} (x : M α) : Prop := ∀ s' m, x ≠ .error (s', .panic m)
+
+theorem writeDatabasePage_any (s : Eng) (pgno : Nat) (d : ByteArray) (hps : s.pageSize ≠ 0) :
+    (∃ s', writeDatabasePage s pgno d = .ok s' ∧ s'.pageSize = s.pageSize) ∨
+    (∃ s', writeDatabasePage s pgno d = .error (s', .err)) := by
+  by_cases hp : pgno = 0
+  · right
+    unfold writeDatabasePage
+    rw [ensure_pos (by simpa using hps)]
+    by_cases hsz : d.size ≠ s.pageSize
+    · simp only [bind, Except.bind, ensure_neg (show ¬ ¬ (d.size ≠ s.pageSize) from fun c => c hsz)]
+      exact ⟨_, rfl⟩
+    · simp only [bind, Except.bind, ensure_pos hsz, ensure_neg (show ¬ ¬ (pgno = 0) from fun c => c hp)]
+      exact ⟨_, rfl⟩
+  · rcases writeDatabasePage_no_panic s pgno d hps hp with ⟨s', h⟩ | h
+    · exact Or.inl ⟨s', h, (writeDatabasePage_bytes _ _ _ _ h).1⟩
+    · exact Or.inr h
+
+theorem foldlM_offs_no_panic (wal : ByteArray) : ∀ (offs : List (Nat × Nat)) (s : Eng), s.pageSize ≠ 0 →
+    (∃ s', offs.foldlM (fun (s : Eng) e => writeDatabasePage s e.1 (wal.extract (e.2 + 24) (e.2 + 24 + s.pageSize))) s = (.ok s' : M Eng) ∧
+        s'.pageSize = s.pageSize) ∨
+    (∃ s', offs.foldlM (fun (s : Eng) e => writeDatabasePage s e.1 (wal.extract (e.2 + 24) (e.2 + 24 + s.pageSize))) s = (.error (s', .err) : M Eng)) := by
+  intro offs
+  induction offs with
+  | nil => intro s _; exact Or.inl ⟨s, rfl, rfl⟩
+  | cons e rest ih =>
+    intro s hps
+    simp only [List.foldlM_cons]
+    rcases writeDatabasePage_any s e.1 (wal.extract (e.2 + 24) (e.2 + 24 + s.pageSize)) hps with ⟨s1, h1, hp1⟩ | ⟨s1, h1⟩
+    · simp only [bind, Except.bind, h1]
+      rcases ih s1 (by rw [hp1]; exact hps) with ⟨s2, h2, hp2⟩ | ⟨s2, h2⟩
+      · exact Or.inl ⟨s2, h2, by rw [hp2, hp1]⟩
+      · exact Or.inr ⟨s2, h2⟩
+    · right
+      simp only [bind, Except.bind, h1]
+      exact ⟨_, rfl⟩
+
+theorem M_bind_error {α β} {x : M α} {f : α → M β} {e : Eng × Res} (h : (x >>= f) = .error e) :
+    x = .error e ∨ ∃ a, x = .ok a ∧ f a = .error e := by
+  cases x with
+  | error e' => simp only [bind, Except.bind] at h; injection h with h; exact Or.inl (by rw [h])
+  | ok a => exact Or.inr ⟨a, rfl, h⟩
+
+theorem truncateWAL_no_panic (s : Eng) (n : Nat) : NoPanic (truncateWAL s n) := by
+  intro s' m h
+  unfold truncateWAL at h
+  by_cases h1 : n ≠ 0
+  · simp [ensure, h1, fail, bind, Except.bind] at h
+  · by_cases h2 : s.wal.isNone = true
+    · simp [ensure, h1, h2, fail, bind, Except.bind, pure, Except.pure] at h
+    · simp [ensure, h1, h2, fail, bind, Except.bind, pure, Except.pure] at h
+
+/-- `CheckpointNoLock` on ARBITRARY WAL bytes never panics when the database's page size is a
+    non-zero multiple of 8 (every valid page size): it succeeds or fails with an ordinary error -/
+theorem checkpointNoLock_no_panic (s : Eng) (hps : s.pageSize ≠ 0) (h8 : s.pageSize % 8 = 0) :
+    NoPanic (checkpointNoLock s) := by
+  intro s' m h
+  unfold checkpointNoLock at h
+  by_cases h1 : s.dbFile.isNone = true
+  · simp [h1, pure, Except.pure] at h
+  · simp only [h1, Bool.false_eq_true, if_false] at h
+    by_cases h2 : s.wal.isNone = true
+    · simp [h2, pure, Except.pure] at h
+    · simp only [h2, Bool.false_eq_true, if_false] at h
+      obtain ⟨oc, hoc⟩ := walPageOffsets_total (s.wal.getD ByteArray.empty) s.pageSize h8
+      obtain ⟨offs, commit⟩ := oc
+      simp only [bind, Except.bind, hoc, liftCk, pure, Except.pure] at h
+      by_cases he : offs.isEmpty = true
+      · simp only [he, if_true] at h
+        rcases M_bind_error h with hx | ⟨a, _, hx⟩
+        · exact truncateWAL_no_panic _ _ _ _ hx
+        · simp [pure, Except.pure] at hx
+      · simp only [he, Bool.false_eq_true, if_false] at h
+        rcases foldlM_offs_no_panic (s.wal.getD ByteArray.empty) offs s hps with ⟨s1, hf, hp1⟩ | ⟨s1, hf⟩
+        · simp only [hf] at h
+          obtain ⟨s2, ht⟩ := truncateDatabaseFile_ok s1 commit (by rw [hp1]; exact hps)
+          simp only [ht] at h
+          rcases M_bind_error h with hx | ⟨a, _, hx⟩
+          · exact truncateWAL_no_panic _ _ _ _ hx
+          · simp [pure, Except.pure] at hx
+        · simp only [hf] at h
+          cases h
+
+end LiteFSVerif.Recovery
